@@ -420,7 +420,12 @@ func (client *client) readLoop() {
 				}
 			}
 		}
-		client.in <- packet
+		select {
+		case client.in <- packet:
+		case <-client.close:
+			// readHandle may be gone already (e.g. after DISCONNECT): drop the packet instead of
+			// blocking forever on a full channel, which kept the client registered and made Stop hang.
+		}
 		<-client.connected
 		srv.statsManager.packetReceived(packet, client.opts.ClientID)
 		if client.server.config.Log.DumpPacket {
